@@ -1843,10 +1843,10 @@ Proof.
   intros z s p offered rest ao Hv Hs Hne Hao. destruct z as [n|]; [|contradiction].
   destruct Hv as [Hlen [t Ht]]. destruct n as [|n].
   - (* only the trailer is left *)
-    destruct p; [|discriminate]. cbn [app] in Ht. subst s.
+    destruct p; [|discriminate]. cbn [app] in Ht. rewrite Ht in Hs.
     destruct offered as [|b o']; [congruence|]. cbn [dz_toy_inflate].
-    destruct o'; [|destruct rest; discriminate]. destruct rest; [|discriminate]. inversion Hs; subst.
-    cbn. split; [lia|]. split; [lia|]. exists []. split; auto.
+    destruct o'; [|destruct o', rest; discriminate]. destruct rest; [|discriminate].
+    cbn [length]. split; [lia|]. split; [cbn; lia|]. exists []. split; auto. right. rewrite Ht. cbn. auto.
   - cbn [dz_toy_inflate]. set (k := Nat.min (S n) (Nat.min (length offered) ao)).
     assert (Hk1 : (1 <= k)%nat). { subst k. destruct offered; [congruence|]. cbn [length]. lia. }
     assert (Hk2 : (k <= length offered)%nat) by (subst k; lia).
@@ -1858,11 +1858,11 @@ Proof.
       rewrite !firstn_app in H1. replace (k - length offered)%nat with O in H1 by lia. replace (k - length p)%nat with O in H1 by lia.
       cbn [firstn] in H1. rewrite !app_nil_r in H1. exact H1. }
     exists (skipn k p). split; [rewrite Hpre; symmetry; apply firstn_skipn|].
+    assert (Hsk : skipn k s = skipn k p ++ [t]).
+    { rewrite Ht. rewrite skipn_app. replace (k - length p)%nat with O by lia. reflexivity. }
     left. split; auto. split.
-    + cbn [dz_toy_valid]. split; [rewrite skipn_length; lia|]. exists t. subst s.
-      rewrite Ht. rewrite skipn_app. replace (k - length p)%nat with O by lia. reflexivity.
-    + split; [lia|]. subst s. rewrite Ht. rewrite skipn_app. replace (k - length p)%nat with O by lia. cbn [skipn].
-      destruct (skipn k p); discriminate.
+    + cbn [dz_toy_valid]. split; [rewrite skipn_length; lia|]. exists t. exact Hsk.
+    + split; [lia|]. rewrite Hsk. destruct (skipn k p); discriminate.
 Qed.
 
 (* an external world that rejects everything: every inflate fails at once (non-vacuity of the passthrough premise) *)
